@@ -296,6 +296,17 @@ pub fn prebuilt(n: usize, base: u64, spacing: u64, order: &str, candidates: Vec<
             }
             seqs = out;
         }
+        // every second one first (ascending), then the ones in between: each later arrival opens a new range
+        // strictly inside a gap of the pending list
+        "evens-then-odds" | "evens-then-odds-descending" => {
+            let mut out: Vec<u64> = seqs.iter().copied().step_by(2).collect();
+            let mut odds: Vec<u64> = seqs.iter().copied().skip(1).step_by(2).collect();
+            if order == "evens-then-odds-descending" {
+                odds.reverse();
+            }
+            out.extend(odds);
+            seqs = out;
+        }
         _ => unreachable!(),
     }
     for s in seqs {
